@@ -125,7 +125,7 @@ def run(ck: Checker):
     fold_templates(ck, B)
     ck.floor('C09.FOLD', 6)
 
-    ck.assume('NOT DECIDED: exactness of subtraction chains, division, square root, the equality gadget and the plus-one carry chain (loop-built arithmetic)')
+    ck.assume('NOT DECIDED: exactness of subtraction, division, square root, the equality gadget and plus-one at widths other than the instantiated ones (C09.NUM / C09.FOLD list them)')
 
 
 def _num(bits, big_endian):
